@@ -588,3 +588,111 @@ def desugar_result_map(db, body):
     nb = dict(body)
     nb["mir"] = mir
     return nb
+
+
+def desugar_option_filter(db, body):
+    """`opt.filter(|x| p(x))` with a closure literal rewritten as `match opt { Some(x) if p(&x) => Some(x), _ => None }`."""
+    mir = None
+    for bi, blk0 in enumerate(body["mir"]["blocks"]):
+        t0 = blk0["term"]
+        if not (t0["k"] == "call" and t0["f"].get("k") == "fn" and t0["f"]["def"] == "core::option::Option::<T>::filter" and not blk0["cleanup"] and t0.get("target") is not None):
+            continue
+        src_locs = (mir or body["mir"])["locals"]
+        opt, clop = t0["args"][0], t0["args"][1]
+        if opt.get("k") not in ("move", "copy") or clop.get("k") not in ("move", "copy") or clop["p"]["p"]:
+            continue
+        cty = src_locs[clop["p"]["l"]]["ty"]
+        cb = db.by_path.get(cty["def"]) if cty.get("k") == "closure" else None
+        if cb is None or cb["mir"]["arg_count"] != 2:
+            continue
+        targs = [a for a in t0["f"].get("args", []) if a.get("k") != "region"]
+        if not targs:
+            continue
+        if mir is None:
+            mir = copy.deepcopy(body["mir"])
+        blocks, locs = mir["blocks"], mir["locals"]
+        blk = blocks[bi]
+        t = blk["term"]
+        T_ = targs[0]
+        optp = t["args"][0]["p"]
+        unwind = t["unwind"]["cleanup"] if isinstance(t.get("unwind"), dict) else None
+        at = t.get("at")
+        ox = {"def": "core::option::Option", "args": [T_], "active": None}
+        payload = {"l": optp["l"], "p": list(optp["p"]) + [{"down": 1}, {"f": 0, "ty": T_}]}
+
+        def arm(stmts):
+            blocks.append({"cleanup": False, "stmts": stmts, "term": {"k": "goto", "target": t["target"], "at": at, "exp": t.get("exp")}, "inl": "desugar"})
+            return len(blocks) - 1
+        none_i = arm([{"k": "assign", "lhs": copy.deepcopy(t["dest"]), "at": at, "rv": {"k": "agg", "ak": "Adt", "x": dict(ox, variant=0), "ops": []}}])
+        keep_i = arm([{"k": "assign", "lhs": copy.deepcopy(t["dest"]), "at": at, "rv": {"k": "agg", "ak": "Adt", "x": dict(ox, variant=1), "ops": [{"k": "move", "p": copy.deepcopy(payload)}]}}])
+        boolty = {"k": "prim", "n": "bool"}
+        locs.append({"ty": boolty, "s": "bool"})
+        lb = len(locs) - 1
+        blocks.append({"cleanup": False, "stmts": [], "term": {"k": "switch", "discr": {"k": "move", "p": {"l": lb, "p": []}}, "targets": [[0, none_i]], "otherwise": keep_i, "at": at, "exp": t.get("exp")}, "inl": "desugar"})
+        test_i = len(blocks) - 1
+        cm = copy.deepcopy(cb["mir"])
+        off_l, off_b = _splice(blocks, locs, cm, {"l": lb, "p": []}, test_i, unwind, at, cb["key"])
+        env_ty = cm["locals"][1]["ty"] if len(cm["locals"]) > 1 else None
+        binds = []
+        if env_ty is not None and env_ty.get("k") == "ref":
+            binds.append({"k": "assign", "lhs": {"l": off_l + 1, "p": []}, "rv": {"k": "ref", "mut": bool(env_ty.get("mut")), "bk": "Shared", "p": copy.deepcopy(clop["p"])}, "at": at})
+        else:
+            binds.append({"k": "assign", "lhs": {"l": off_l + 1, "p": []}, "rv": {"k": "use", "op": copy.deepcopy(clop)}, "at": at})
+        binds.append({"k": "assign", "lhs": {"l": off_l + 2, "p": []}, "rv": {"k": "ref", "mut": False, "bk": "Shared", "p": copy.deepcopy(payload)}, "at": at})
+        blocks.append({"cleanup": False, "stmts": binds, "term": {"k": "goto", "target": off_b, "at": at, "exp": t.get("exp")}, "inl": "desugar"})
+        some_i = len(blocks) - 1
+        locs.append({"ty": {"k": "prim", "n": "isize"}, "s": "isize"})
+        ld = len(locs) - 1
+        blk["stmts"].append({"k": "assign", "lhs": {"l": ld, "p": []}, "rv": {"k": "discr", "p": copy.deepcopy(optp)}, "at": at})
+        blk["term"] = {"k": "switch", "discr": {"k": "move", "p": {"l": ld, "p": []}}, "targets": [[0, none_i]], "otherwise": some_i, "at": at, "exp": t.get("exp")}
+    if mir is None:
+        return body
+    nb = dict(body)
+    nb["mir"] = mir
+    return nb
+
+
+def thread_desugared_jumps(body):
+    """Jump threading for the arms the desugarings above create: an arm that stores an enum value of a KNOWN variant into `d` and jumps to a block
+    that does nothing but read `discriminant(d)` and switch on it continues directly at that variant's target (the test block's statements are
+    copied into the arm). Semantics-preserving; it keeps the correlation between the arm taken and the variant seen, which a merge would lose."""
+    mir = body["mir"]
+    blocks = mir["blocks"]
+    todo = []
+    for ai, arm in enumerate(blocks):
+        if arm.get("inl") != "desugar" or arm["term"]["k"] != "goto" or not arm["stmts"]:
+            continue
+        last = arm["stmts"][-1]
+        if not (last["k"] == "assign" and last["rv"].get("k") == "agg" and last["rv"].get("ak") == "Adt" and not last["lhs"]["p"]):
+            continue
+        d, v = last["lhs"]["l"], last["rv"]["x"].get("variant")
+        tgt = blocks[arm["term"]["target"]]
+        tt = tgt["term"]
+        if tt["k"] != "switch" or tt["discr"].get("k") not in ("move", "copy") or tt["discr"]["p"]["p"]:
+            continue
+        dl = tt["discr"]["p"]["l"]
+        ok, reads = True, False
+        for s_ in tgt["stmts"]:
+            if s_["k"] in ("slive", "sdead"):
+                continue
+            if s_["k"] == "assign" and not s_["lhs"]["p"] and s_["lhs"]["l"] == dl and s_["rv"].get("k") == "discr" and s_["rv"]["p"] == {"l": d, "p": []}:
+                reads = True
+                continue
+            ok = False
+        if not (ok and reads) or v is None:
+            continue
+        dest = tt["otherwise"]
+        for val, b_ in tt["targets"]:
+            if val == v:
+                dest = b_
+        todo.append((ai, arm["term"]["target"], dest))
+    if not todo:
+        return body
+    mir = copy.deepcopy(mir)
+    for ai, ti, dest in todo:
+        arm = mir["blocks"][ai]
+        arm["stmts"] = arm["stmts"] + copy.deepcopy(mir["blocks"][ti]["stmts"])
+        arm["term"] = dict(arm["term"], target=dest)
+    nb = dict(body)
+    nb["mir"] = mir
+    return nb
